@@ -279,6 +279,8 @@ def check_C10(sc, v, tier, seed, replay):
             if s in (5, 6, 7):
                 skip = [126, 127, 128][s - 5]
             plain = rnd.choice(msgs)
+            if s == 15:
+                hdr, plain = 0, [0x7e, 0x00, [0x46, 0x54][h % 2]]     # a plain message that is nothing but its three header octets
             if s in (2, 9):
                 # long messages (more than 255 octets, several keystream blocks) at fixed steps; the 4100-octet one in the thorough tier
                 plain = longs[(h + (0 if s == 2 else 3)) % (5 if tier == "quick" else 6)]
